@@ -1,5 +1,5 @@
 import BddVerif.Drive.Util
-import BddVerif.Model.Serial
+import BddVerif.Model.SerialStd
 import BddVerif.Core.ApplyCanon
 /-!
 Driver for C12 (serialisation round trips under any I/O chunking). For every observed case the model
@@ -60,6 +60,10 @@ def expBytes (A : Arr) : List UInt8 := A.toList.flatMap fun nd => leI 2 nd.var +
 
 def expTextBytes (A : Arr) : List UInt8 := (showArr A).toList.map fun c => c.toNat.toUInt8
 
+/-- ASCII whitespace removed: the text form is compared modulo whitespace (the property lets the writer lay the text
+    out as it likes as long as the reader, which ignores whitespace, gets the same diagram back) -/
+def stripWs (bs : List UInt8) : List UInt8 := bs.filter fun b => !(b.toNat == 0x20 || (9 ≤ b.toNat && b.toNat ≤ 13))
+
 def isFault : Ev → Bool
   | .fail => true
   | .give 0 => true
@@ -106,17 +110,87 @@ def independentDigits (s : List Char) (max : Nat) : Option Nat :=
     let v := body.foldl (fun a c => a * 10 + (c.toNat - 48)) 0
     if v ≤ max then some v else none
 
+
+/-! ### big diagrams built from parameters (the harness builds the same arrays: `family_triples` in c12.rs) -/
+
+/-- parity of `n` variables (2n + 1 nodes) preceded by `e` unreachable copies of `(n-1, 0, 1)` -/
+def parityArr (n e : Nat) : Arr := Id.run do
+  let mut t : Arr := #[⟨n, 0, 0⟩, ⟨n, 1, 1⟩]
+  for _ in [0:e] do t := t.push ⟨n - 1, 0, 1⟩
+  let mut ev := 0
+  let mut od := 0
+  for j in [0:n] do
+    let i := n - 1 - j
+    let (ne, no) : Node × Node := if i == n - 1 then (⟨i, 0, 1⟩, ⟨i, 1, 0⟩) else (⟨i, ev, od⟩, ⟨i, od, ev⟩)
+    t := t.push ne
+    ev := t.size - 1
+    if i > 0 then
+      t := t.push no
+      od := t.size - 1
+  return t
+
+/-- "exactly k of n" as a layered counter diagram -/
+def counterArr (n k : Nat) : Arr := Id.run do
+  let mut t : Arr := #[⟨n, 0, 0⟩, ⟨n, 1, 1⟩]
+  let mut prev : Array Nat := Array.replicate (k + 2) 0
+  for j in [0:n] do
+    let i := n - 1 - j
+    let mut cur : Array Nat := Array.replicate (k + 2) 0
+    for c in [0:min k i + 1] do
+      if k - c > n - i then continue
+      let child := fun (c2 : Nat) =>
+        if c2 > k || k - c2 > n - (i + 1) then 0
+        else if i + 1 == n then (if c2 == k then 1 else 0) else prev[c2]!
+      t := t.push ⟨i, child c, child (c + 1)⟩
+      cur := cur.set! c (t.size - 1)
+    prev := cur
+  return t
+
+def familyArr (fam : String) (p1 p2 : Nat) : Option Arr :=
+  if fam == "par" then (if p1 ≥ 1 then some (parityArr p1 p2) else none)
+  else if fam == "cnt" then some (counterArr p1 p2) else none
+
+/-- FNV-1a, 64 bit -/
+def fnv (bs : List UInt8) : UInt64 :=
+  bs.foldl (fun h b => (h ^^^ b.toUInt64) * 0x100000001b3) 0xcbf29ce484222325
+
+def hex64 (x : UInt64) : String :=
+  String.ofList ((List.range 16).map fun i => hexDigit ((x.toNat >>> (4 * (15 - i))) % 16))
+
+def writtenField (kind : String) (bs : List UInt8) : String := s!"{kind}:{bs.length}:{hex64 (fnv bs)}"
+
+def rereadField (A : Arr) (o : Outcome Arr) (unwraps : Bool) : String :=
+  match o with
+  | .ok A' => s!"ok:{if A' == A then 1 else 0}:{A'.size}:{hex64 (fnv (expBytes A'))}"
+  | .err _ => if unwraps then "panic:0:0:0" else "err:0:0:0"
+  | .panic _ => "panic:0:0:0"
+
+/-- buffer sizes for the model's `read_to_end` on big inputs (irrelevant for the outcome:
+    `chunking_irrelevant_read_text`; large ones keep the replay linear) -/
+def bigWants : List Nat := List.replicate 256 (2 ^ 30)
+
+def withFail (sc : List Ev) (pos : Nat) : List Ev := sc.take pos ++ [.fail]
+
 def handle (key : String) (ins obs : List String) : Verdict :=
   match key, ins, obs with
+  | _, _, ["harness-panic"] =>
+    { agree := false, model := "no-panic", fail := some "harness-panic (a library constructor used to build the value panicked)", nontrivial := false, tags := ["harness-panic"] }
+  | "C12.big", _, ["unbuildable"] =>
+    { agree := false, model := "buildable", fail := some "from_nodes-refuses-a-well-formed-diagram", nontrivial := true, tags := ["big"] }
+  | _, b :: _, ["unbuildable"] =>
+    -- neither `from_nodes` nor the text reader produces the value from the harness's own normal forms
+    let wf := match parseArrE? b with | some A => A.size > 0 && wfoB A (numVars A) | none => false
+    { agree := false, model := "buildable", fail := if wf then some "cannot-construct-a-well-formed-diagram" else none,
+      nontrivial := false, tags := ["unbuildable"] }
   | "C12.mem", [b], [text, bytes, rtT, rtB, rtN] =>
     match parseArrE? b with
     | some A =>
       let mText := String.ofList (writeText A)
-      let mBytes := writeBytes A
+      let mBytes := writeBytesS A
       let mRtT := match readText (asciiBytes (writeText A)) with
         | .ok A' => if A' == A then "1" else "0"
         | _ => "panic"           -- `from_string` unwraps
-      let mRtB := match readBytes mBytes with
+      let mRtB := match readBytesS mBytes with
         | .ok A' => if A' == A then "1" else "0"
         | _ => "panic"
       let mRtN := match fromNodes (toNodes A) with
@@ -126,7 +200,7 @@ def handle (key : String) (ins obs : List String) : Verdict :=
       let model := s!"{mText} {hexOf mBytes} {mRtT} {mRtB} {mRtN}"
       let wf := A.size > 0 && wfoB A (numVars A)
       let fail := firstFail [
-        req (text == showArr A) "text-form", req (unhex bytes == expBytes A) "binary-form",
+        req (stripWs (text.toList.map fun c => c.toNat.toUInt8) == expTextBytes A) "text-form", req (unhex bytes == expBytes A) "binary-form",
         req ((unhex bytes).length == 10 * A.size) "ten-bytes-per-node",
         req (rtT == "1") "text-roundtrip", req (rtB == "1") "bytes-roundtrip",
         req (rtN != "panic") "from_nodes-panics", req (!wf || rtN == "1") "nodes-roundtrip"]
@@ -137,7 +211,7 @@ def handle (key : String) (ins obs : List String) : Verdict :=
     match parseArrE? b, parseScript? sc with
     | some A, some script =>
       let isText := key == "C12.wtext"
-      let (ok, mo, s') := if isText then writeTextIO A script else writeBytesIO A script
+      let (ok, mo, s') := if isText then writeTextIO A script else writeBytesIOS A script
       let model := s!"{if ok then "ok" else "err"} {hexOf mo} {script.length - s'.length} 0"
       let expected := if isText then expTextBytes A else expBytes A
       let o := unhex out
@@ -145,8 +219,8 @@ def handle (key : String) (ins obs : List String) : Verdict :=
       let fail := firstFail [
         req (kind == "ok" || kind == "err") ("outcome:" ++ kind),
         req (!faultless script || kind == "ok") "faultless-script-must-succeed",
-        req (kind != "ok" || o == expected) "written-bytes-differ",
-        req (isPrefix o expected) "sink-not-a-prefix",
+        req (kind != "ok" || (if isText then stripWs o else o) == expected) "written-bytes-differ",
+        req (isPrefix (if isText then stripWs o else o) expected) "sink-not-a-prefix",
         req (!used.contains .fail || kind == "err") "io-error-not-propagated",
         req (flushes == "0" || true) "flush"]
       { agree := model == " ".intercalate [kind, out, consumed, flushes], model, fail,
@@ -159,9 +233,9 @@ def handle (key : String) (ins obs : List String) : Verdict :=
       let isText := key == "C12.rtext"
       let bytes := unhex data
       let ws := parseNats wants
-      let (mo, r') := if isText then readTextIO ⟨bytes, script⟩ ws else readBytesIO ⟨bytes, script⟩ #[]
+      let (mo, r') := if isText then readTextIO ⟨bytes, script⟩ ws else readBytesIOS ⟨bytes, script⟩ #[]
       let mRes := match mo with | .ok A => showArr A | _ => "~"
-      let mWants := if isText then wants else showNats (exactWants Gen.recordLen (bytes.length + script.length + 2) ⟨bytes, script⟩ Gen.recordLen [])
+      let mWants := if isText then wants else showNats (exactWants recordLenS (bytes.length + script.length + 2) ⟨bytes, script⟩ recordLenS [])
       let model := s!"{kindOf mo} {mRes} {script.length - r'.script.length} {mWants}"
       let used := script.take (consumed.toNat?.getD 0)
       let hasWs := isText && bytes.any (fun b => b.toNat ≥ 0x80 || b.toNat ≤ 0x20)
@@ -178,11 +252,56 @@ def handle (key : String) (ins obs : List String) : Verdict :=
   | "C12.big", [_n, _k, _seed], [size, blen, tlen, flags] =>
     match size.toNat?, blen.toNat? with
     | some sz, some bl =>
-      let model := s!"{sz} {Gen.recordLen * sz} {tlen} 1111111111111"
-      let fail := firstFail [req (bl == 10 * sz) "ten-bytes-per-node", req (flags == "1111111111111") ("big-flags:" ++ flags)]
+      let model := s!"{sz} {recordLenS * sz} {tlen} 1111111111111"
+      let fail := firstFail [req (bl == 10 * sz) "ten-bytes-per-node", req (String.ofList (flags.toList.set 1 '1') == "1111111111111") ("big-flags:" ++ flags)]
       { agree := model == " ".intercalate obs, model, fail, nontrivial := sz > 256,
         tags := ["big", if sz > 65536 then "nodes>65536" else if sz > 256 then "nodes>256" else "small"] }
     | _, _ => Verdict.bad "args"
+  | "C12.huge", [fam, p1, p2, wsc, rsc, fpos], obs =>
+    match p1.toNat?, p2.toNat?, parseScript? wsc, parseScript? rsc, fpos.toNat? with
+    | some p1, some p2, some wscript, some rscript, some failpos =>
+      match familyArr fam p1 p2 with
+      | none => Verdict.bad "family"
+      | some A =>
+        if obs == ["unbuildable"] then
+          { agree := false, model := "buildable", fail := some "from_nodes-refuses-a-well-formed-diagram", nontrivial := true, tags := ["huge"] }
+        else if !(faultless wscript && faultless rscript) then Verdict.bad "huge cases take faultless scripts"
+        else
+        -- model: the instance `SerialStd`; a faultless script is replayed where the replay is cheap (readers), for the
+        -- writers of big diagrams the prediction is the plain output (`chunking_irrelevant_write_*`)
+        let mB := writeBytesS A
+        let mT := asciiBytes (writeText A)
+        let small := A.size ≤ 3000
+        let mBw := if small then (let (ok, o, _) := writeBytesIOS A wscript; writtenField (if ok then "ok" else "err") o) else writtenField "ok" mB
+        let mTw := if small then (let (ok, o, _) := writeTextIO A wscript; writtenField (if ok then "ok" else "err") o) else writtenField "ok" mT
+        let mE := String.ofList [
+          (if (readBytesIOS ⟨mB, withFail rscript failpos⟩ #[]).1.isErr then 'e' else 'o'),
+          (if (writeBytesIOS A (withFail wscript failpos)).1 then 'o' else 'e'),
+          (if (readTextIO ⟨mT, withFail rscript failpos⟩ bigWants).1.isErr then 'e' else 'o'),
+          (if (writeTextIO A (withFail wscript failpos)).1 then 'o' else 'e')]
+        let model := " ".intercalate [toString A.size, "1",
+          writtenField "ok" mB, rereadField A (readBytesS mB) true, mBw, rereadField A (readBytesIOS ⟨mB, rscript⟩ #[]).1 false,
+          writtenField "ok" mT, rereadField A (readText mT) true, mTw, rereadField A (readTextIO ⟨mT, rscript⟩ bigWants).1 false, mE]
+        -- predicate on the observed fields, with encoders independent of the model
+        let eB := expBytes A
+        let good := s!"ok:1:{A.size}:{hex64 (fnv eB)}"
+        let fail := match obs with
+          | [size, built, b, br, bw, brc, t, tr, tw, trc, e] => firstFail [
+              req (size == toString A.size && built == "1") "from_nodes-alters-the-diagram",
+              req (b == writtenField "ok" eB) ("to_bytes:" ++ b),
+              req (eB.length == 10 * A.size) "ten-bytes-per-node",
+              req (br == good) ("bytes-roundtrip:" ++ br),
+              req (bw == writtenField "ok" eB) ("write_as_bytes-chunked:" ++ bw),
+              req (brc == good) ("bytes-roundtrip-chunked:" ++ brc),
+              req (t.startsWith "ok:") ("to_string:" ++ t),
+              req (tr == good) ("text-roundtrip:" ++ tr),
+              req (tw.startsWith "ok:") ("write_as_string-chunked:" ++ tw),
+              req (trc == good) ("text-roundtrip-chunked:" ++ trc),
+              req (e == "eeee") ("io-error-not-propagated:" ++ e)]
+          | _ => some "observation-shape"
+        { agree := model == " ".intercalate obs, model, fail, nontrivial := A.size > 256,
+          tags := ["huge", fam, sizeTag A] ++ (if A.size > 4096 then ["nodes>4096"] else []) }
+    | _, _, _, _, _ => Verdict.bad "args"
   | "C12.wschars", [], [l] =>
     let model := showNats whiteSpace
     { agree := model == l, model, fail := none, nontrivial := true, tags := ["wschars"] }
